@@ -35,9 +35,9 @@ from ckl.errors import CklRuntimeError, CklSyntaxError
 spec = json.load(open(sys.argv[1], encoding="utf-8"))
 legacy = sys.argv[2] == "1"
 real = sys.stdout
-it = Interpreter(True, legacy)
 buf = io.StringIO()
-it.setStandardOutput(buf)
+sys.stdout = buf                   # the interpreter takes its standard output from here when it is created
+it = Interpreter(True, legacy)
 
 
 class Alarm(BaseException):
@@ -100,6 +100,29 @@ real.flush()
 MODULES = ["Bitwise", "Core", "Date", "IO", "List", "Math", "OS", "Predicate", "Random", "Set", "Stat", "String",
            "Sys", "Type"]
 
+# fallback when ls() cannot be asked (names of the tree this was written against)
+BASE_NAMES = ['abs', 'add', 'all', 'any', 'append', 'apply', 'bind_native', 'body', 'boolean', 'ceiling', 'chunks', 'compare',
+              'const', 'contains', 'count', 'curry', 'date', 'decimal', 'delete_at', 'div', 'div0', 'ends_with', 'enumerate',
+              'equals', 'esc', 'escape_pattern', 'eval', 'find', 'find_last', 'floor', 'greater', 'greater_equals',
+              'identity', 'if_empty', 'if_null', 'if_null_or_empty', 'info', 'insert_at', 'int', 'interval',
+              'is_alphanumerical', 'is_empty', 'is_list', 'is_map', 'is_negative', 'is_not_empty', 'is_not_null', 'is_null',
+              'is_numeric', 'is_numerical', 'is_object', 'is_set', 'is_string', 'is_valid_date', 'is_valid_time', 'is_zero',
+              'join', 'label_data', 'length', 'less', 'less_equals', 'lines', 'list', 'ls', 'map', 'map_get',
+              'map_get_pattern', 'matches', 'max', 'min', 'mod', 'mul', 'new', 'non_empty', 'non_zero', 'not_equals', 'object',
+              'pairs', 'parse', 'parse_json', 'pattern', 'print', 'println', 'put', 'q', 'range', 'remove', 'replace',
+              'reverse_string', 'round', 's', 'set', 'sign', 'sorted', 'split', 'split2', 'sprintf', 'starts_with', 'string',
+              'sub', 'sublist', 'substitute', 'substr', 'sum', 'trim', 'type', 'unlines', 'unwords', 'words', 'zip', 'zip_map']
+MODULE_NAMES = {
+    "List": ['append_all', 'contains', 'filter', 'find', 'find_last', 'first', 'first_n', 'flatten', 'for_each', 'grep',
+             'grouped', 'last', 'last_n', 'map_list', 'permutations', 'prod', 'reduce', 'rest', 'reverse', 'reverse_list',
+             'unique'],
+    "Set": ['diff', 'intersection', 'symmetric_diff', 'union'],
+    "Stat": ['geometric_mean', 'harmonic_mean', 'mean', 'median', 'median_high', 'median_low'],
+    "Random": ['choice', 'choices', 'random', 'sample', 'set_seed'],
+    "String": ['join', 'q', 'split', 'trim', 'upper', 'lower', 'reverse', 'replace'],
+    "IO": ['process_lines', 'read_all', 'str_input', 'str_output', 'printf'],
+}
+
 # never compared: their result is the clock / the machine, not the program and its inputs
 BY_DESIGN = {"now", "timestamp", "get_env", "which", "checkerlang_version", "checkerlang_platform"}
 
@@ -145,15 +168,15 @@ def functions_of_tree():
 
     try:
         base = sorted(str(x.value) for x in it.interpret("ls()", "c12").value)
-    except Exception as e:
-        raise MachineryError(f"ls() of the base environment failed: {e!r}")
+    except Exception:
+        base = BASE_NAMES           # ls() itself is gone or broken: the names known when this was written
     for n in base:
         add(n, n)
     for m in MODULES:
         try:
             names = sorted(str(x.value) for x in it.interpret(f"require {m}; ls({m})", "c12").value)
         except Exception:
-            continue
+            names = MODULE_NAMES.get(m, [])
         for n in names:
             if m == "Core" and n in seen:
                 continue
